@@ -125,6 +125,22 @@ def rule_construction(rep, pdb):
         ok = summ is not None and summ.get("rows") == P(0) and summ.get("cols") == P(1) and summ.get("nonzero") == P(2) and \
             velen(summ.get("val")) == P(2) and velen(summ.get("row_index")) == P(2) and velen(summ.get("col_start")) == lin_add(P(1), num(1))
         rep.add("lengths/new_nonzero", rule, ok, fn["body"], "", where=loc(fn["body"]))
+    fn = pdb.fn("%s::from_vecs" % S)
+    rule = ("from_vecs(rows, cols, val, row_index, col_start) stores its five arguments in the fields of the same name and takes nonzero from the end of the "
+            "column starts (col_start[len-1] or col_start[cols]) or from the length of val / row_index")
+    if fn is None:
+        rep.missing("lengths/from_vecs", rule, "not found")
+    else:
+        summ = ctor_summary(pdb, fn)
+        ok, det = summ is not None, ""
+        if ok:
+            nz = summ.get("nonzero")
+            cs = P(4)
+            good_nz = (("idx", cs, lin_add(LEN(cs), num(-1))), ("idx", cs, P(1)), LEN(P(2)), LEN(P(3)))
+            ok = summ.get("rows") == P(0) and summ.get("cols") == P(1) and summ.get("val") == P(2) and summ.get("row_index") == P(3) and summ.get("col_start") == cs and nz in good_nz
+            ctx_ = Ctx.for_fn(pdb, fn)
+            det = "nonzero = %s" % (show(nz, ctx_) if nz is not None else None)
+        rep.add("lengths/from_vecs", rule, ok, fn["body"], det, where=loc(fn["body"]))
     fn = pdb.fn("%s::from_triplets" % S)
     rule = "from_triplets: one push to each of row_index (.0), col_index (.1), val (.2) and nonzero += 1 per drained triplet; col_start computed from the column indices; rows/cols recorded"
     if fn is None:
